@@ -138,7 +138,7 @@ pub fn run(ctx: &mut Ctx, replay: Option<&[String]>) {
             let pick_a = rng.chance(1, 2);
             let m = mutate(&mut rng, if pick_a { &a } else { &b }, h.num_rows());
             let o = parse_res(&m);
-            let tag = if o.starts_with("ok") { "parse-mutated-ok" } else if o == "err" { "parse-mutated-err" } else { "parse-mutated-panic" };
+            let tag = if o.starts_with("ok") { "parse-mutated-ok" } else if o == "err" { "parse-mutated-err" } else if o.starts_with("skipped") { "parse-mutated-skipped-huge-dimensions" } else { "parse-mutated-panic" };
             ctx.emit(&format!("c08 p {}", enc_text(&m)), &o, true, &[tag]);
         }
     }
